@@ -17,6 +17,57 @@ TRUSTED = ['Counter.most_common() is a stable sort by decreasing count (dict ins
 ASSUMPTIONS = ['training completes (at least one valid password)']
 
 
+def check_trained(rd, tf, enc, cov, wit, dist):
+    """a trained ruleset directory against the independently recomputed relative-frequency lists of the real parser's counters"""
+    common.use_impl()
+    out = []
+    from lib_trainer.trainer_file_input import TrainerFileInput
+    valid = list(TrainerFileInput(tf, enc).read_password())
+    mw, _ = train_util.first_pass(valid)
+    parser = train_util.second_pass(valid, mw)
+    n_valid = len(valid)
+    base = Counter(parser.count_base_structures)
+    if any(('E' in s or 'W' in s) for s in parser.count_raw_base_structures):
+        dist['unsupported_structures'] = dist.get('unsupported_structures', 0) + 1
+    if cov == 0:
+        base = Counter({'M': 1})
+    elif cov != 1:
+        base['M'] = n_valid / cov - n_valid
+    lists = {os.path.join('Grammar', 'grammar.txt'): base, os.path.join('Grammar', 'raw_grammar.txt'): parser.count_raw_base_structures,
+             os.path.join('Years', '1.txt'): parser.count_years, os.path.join('Context', '1.txt'): parser.count_context_sensitive,
+             os.path.join('Prince', 'grammar.txt'): parser.count_prince,
+             os.path.join('Emails', 'email_providers.txt'): parser.count_email_providers,
+             os.path.join('Websites', 'website_hosts.txt'): parser.count_website_hosts}
+    for folder, cdict in (('Alpha', parser.count_alpha), ('Capitalization', parser.count_alpha_masks), ('Digits', parser.count_digits),
+                          ('Other', parser.count_other), ('Keyboard', parser.count_keyboard)):
+        for k, c in cdict.items():
+            lists[os.path.join(folder, f"{k}.txt")] = c
+        ondisk = sorted(os.listdir(os.path.join(rd, folder)))
+        if ondisk != sorted(f"{k}.txt" for k in cdict):
+            out.append({'property': 'C06', 'kind': 'files-vs-length-classes', 'folder': folder, 'witness': wit})
+    for rel, counter in lists.items():
+        path = os.path.join(rd, rel)
+        want = [(str(k), str(p)) for k, p in expected_file(counter)] if counter else []
+        got = read_file(path, 'ascii' if rel.startswith(('Grammar', 'Prince')) else enc) if os.path.exists(path) else None
+        if got != want:
+            out.append({'property': 'C06', 'kind': 'list-not-relative-frequency', 'file': rel, 'got': str(got)[:160], 'want': str(want)[:160],
+                         'witness': wit})
+            continue
+        if got:
+            ps = [float(p) for _, p in got]
+            if abs(sum(ps) - 1.0) > 1e-9 or any(b > a for a, b in zip(ps, ps[1:])) or len({v for v, _ in got}) != len(got):
+                out.append({'property': 'C06', 'kind': 'list-shape', 'file': rel, 'sum': sum(ps), 'witness': wit})
+    g = dict(read_file(os.path.join(rd, 'Grammar', 'grammar.txt'), 'ascii'))
+    raw = dict(read_file(os.path.join(rd, 'Grammar', 'raw_grammar.txt'), 'ascii'))
+    if cov == 1 and 'M' in g:
+        out.append({'property': 'C06', 'kind': 'markov-present-at-coverage-1', 'witness': wit})
+    if cov == 0 and list(g) != ['M']:
+        out.append({'property': 'C06', 'kind': 'coverage-0-not-only-markov', 'witness': wit})
+    if any(('E' in s or 'W' in s) for s in g):
+        out.append({'property': 'C06', 'kind': 'unsupported-structure-in-grammar', 'witness': wit})
+    return out, g, n_valid
+
+
 def real_calc(counter):
     common.use_impl()
     from lib_trainer.calculate_probabilities import calculate_probabilities
@@ -73,63 +124,31 @@ def run(ctx):
         exp.append(' '.join(['p'] + [f"{cl.cps(k)}:{f2h(p)}" for k, p in got]))
     # 2. full training: every list on disk is the relative-frequency list of the parser's counter
     root = common.scratch_dir('c06')
+    last = None
     for i in range(ctx.scale(6, 60)):
         pws = gen_passwords.gen_list(rng, n=rng.randint(4, 25))
         cov = rng.choice([0.0, 0.1, 0.6, 0.6, 1.0, 0.5])
+        # every training after the first goes over the ruleset directory of the previous one (re-training under the same rule
+        # name): the result must be the ruleset of *this* list - nothing of the earlier one may survive.  The first two lists
+        # are fixed: keyboard walks, symbols and years first, then letters and digits only
+        if i == 0:
+            pws, cov = ['1qaz2wsx', 'qwerty!!', '#1love', 'zaq1!@#', '$$$', 'pass1999', 'Ab12!', 'ab', 'x'], 0.6
+        elif i == 1:
+            pws, cov = ['password1', 'hello22', 'abc', 'Summer', 'password1', '12345'], 0.6
         enc = 'utf-8'
+        prev = last if i > 0 else None
+        last = {'passwords': pws, 'coverage': cov}
         tf = os.path.join(root, 'train.txt')
         with open(tf, 'wb') as f:
             f.write(('\n'.join(pws) + '\n').encode(enc))
         rd = os.path.join(common.scratch_dir('rules'), 'c06r')
-        ok, log = common.train(tf, rd, encoding=enc, ngram=rng.choice([2, 3, 4]), coverage=cov)
+        ok, log = common.train(tf, rd, encoding=enc, ngram=rng.choice([2, 3, 4]), coverage=cov, keep=(i > 0))
         cases += 1
         dist['coverage'][str(cov)] = dist['coverage'].get(str(cov), 0) + 1
         if not ok:
             continue
-        from lib_trainer.trainer_file_input import TrainerFileInput
-        valid = list(TrainerFileInput(tf, enc).read_password())
-        mw, _ = train_util.first_pass(valid)
-        parser = train_util.second_pass(valid, mw)
-        n_valid = len(valid)
-        base = Counter(parser.count_base_structures)
-        if any(('E' in s or 'W' in s) for s in parser.count_raw_base_structures):
-            dist['unsupported_structures'] += 1
-        if cov == 0:
-            base = Counter({'M': 1})
-        elif cov != 1:
-            base['M'] = n_valid / cov - n_valid
-        lists = {os.path.join('Grammar', 'grammar.txt'): base, os.path.join('Grammar', 'raw_grammar.txt'): parser.count_raw_base_structures,
-                 os.path.join('Years', '1.txt'): parser.count_years, os.path.join('Context', '1.txt'): parser.count_context_sensitive,
-                 os.path.join('Prince', 'grammar.txt'): parser.count_prince,
-                 os.path.join('Emails', 'email_providers.txt'): parser.count_email_providers,
-                 os.path.join('Websites', 'website_hosts.txt'): parser.count_website_hosts}
-        for folder, cdict in (('Alpha', parser.count_alpha), ('Capitalization', parser.count_alpha_masks), ('Digits', parser.count_digits),
-                              ('Other', parser.count_other), ('Keyboard', parser.count_keyboard)):
-            for k, c in cdict.items():
-                lists[os.path.join(folder, f"{k}.txt")] = c
-            ondisk = sorted(os.listdir(os.path.join(rd, folder)))
-            if ondisk != sorted(f"{k}.txt" for k in cdict):
-                viol.append({'property': 'C06', 'kind': 'files-vs-length-classes', 'folder': folder, 'witness': {'passwords': pws, 'coverage': cov}})
-        for rel, counter in lists.items():
-            path = os.path.join(rd, rel)
-            want = [(str(k), str(p)) for k, p in expected_file(counter)] if counter else []
-            got = read_file(path, 'ascii' if rel.startswith(('Grammar', 'Prince')) else enc) if os.path.exists(path) else None
-            if got != want:
-                viol.append({'property': 'C06', 'kind': 'list-not-relative-frequency', 'file': rel, 'got': str(got)[:160], 'want': str(want)[:160],
-                             'witness': {'passwords': pws, 'coverage': cov}})
-                continue
-            if got:
-                ps = [float(p) for _, p in got]
-                if abs(sum(ps) - 1.0) > 1e-9 or any(b > a for a, b in zip(ps, ps[1:])) or len({v for v, _ in got}) != len(got):
-                    viol.append({'property': 'C06', 'kind': 'list-shape', 'file': rel, 'sum': sum(ps), 'witness': {'passwords': pws, 'coverage': cov}})
-        g = dict(read_file(os.path.join(rd, 'Grammar', 'grammar.txt'), 'ascii'))
-        raw = dict(read_file(os.path.join(rd, 'Grammar', 'raw_grammar.txt'), 'ascii'))
-        if cov == 1 and 'M' in g:
-            viol.append({'property': 'C06', 'kind': 'markov-present-at-coverage-1', 'witness': {'passwords': pws, 'coverage': cov}})
-        if cov == 0 and list(g) != ['M']:
-            viol.append({'property': 'C06', 'kind': 'coverage-0-not-only-markov', 'witness': {'passwords': pws, 'coverage': cov}})
-        if any(('E' in s or 'W' in s) for s in g):
-            viol.append({'property': 'C06', 'kind': 'unsupported-structure-in-grammar', 'witness': {'passwords': pws, 'coverage': cov}})
+        vs, g, n_valid = check_trained(rd, tf, enc, cov, {'passwords': pws, 'coverage': cov, 'previous': prev}, dist)
+        viol += vs
         if 0 < cov < 1:
             ops.append(f"cp.markov {f2h(cov)} {f2h(float(n_valid))}")
             exp.append('m ' + f2h(n_valid / cov - n_valid))
@@ -215,4 +234,16 @@ def replay(ctx, payload):
         got = real_calc(w['counter'])
         want = expected_file(w['counter'])
         return [] if [(k, f2h(p)) for k, p in got] == [(k, f2h(p)) for k, p in want] else [{'kind': 'calc-probabilities'}]
+    if 'passwords' in w:
+        root = common.scratch_dir('c06')
+        rd = os.path.join(common.scratch_dir('rules'), 'c06replay')
+        tf = os.path.join(root, 'replay.txt')
+        steps = ([w['previous']] if w.get('previous') else []) + [w]
+        for k, st in enumerate(steps):
+            with open(tf, 'wb') as f:
+                f.write(('\n'.join(st['passwords']) + '\n').encode('utf-8'))
+            ok, _ = common.train(tf, rd, encoding='utf-8', ngram=3, coverage=st['coverage'], keep=(k > 0))
+            if not ok:
+                return []
+        return check_trained(rd, tf, 'utf-8', w['coverage'], {}, {})[0]
     return []
